@@ -107,7 +107,7 @@ class _Lock:
         self.fh.close()
 
 
-def prune(keep=3):
+def prune(keep=6):
     """Bound disk use: keep the `keep` most recently used source keys."""
     if not os.path.isdir(CACHE):
         return
